@@ -678,9 +678,19 @@ def conn_reg_race(rng):
             unsol.insert(0, [round(t_ops + k_ * 0.00002, 6), f"@MAIN:VOL=-0.{k_}"])
         for i_, ops_ in enumerate(threads):
             ops_[0] = ["sleep", round(t_ops + i_ * rng.choice([0.0, 0.00001, 0.00003]), 6)]
+    budget = rng.choice([6, 12, 24])
+    if 0.7 <= r_ < 0.93:
+        # a burst of lines is being delivered while the registrations trickle in one by one: every delivery looks at the collection, every
+        # registration changes it, in every order
+        nl = rng.randint(8, 16)
+        for k_ in range(nl):
+            unsol.insert(0, [round(t_ops + k_ * 0.00002, 6), f"@MAIN:VOL=-0.{k_:02d}"])
+        for i_, ops_ in enumerate(threads):
+            ops_[0] = ["sleep", round(t_ops + rng.uniform(0, nl * 0.00002), 6)]
+        budget = rng.choice([24, 48, 80])
     dev = {"type": "scripted", "latency": 0.02, "unsolicited": unsol}
     return {"kind": "conn", "device": dev, "log_size": 0, "threads": threads, "pre_register": pre, "callbacks": {},
-            "hot": "register_message_callback|_call_registered_message_callbacks", "hot_budget": rng.choice([6, 12, 24])}
+            "hot": "register_message_callback|_call_registered_message_callbacks", "hot_budget": budget}
 
 
 # ---------------------------------------------------------------------------------------------- end-to-end ("wire") sessions
@@ -738,6 +748,43 @@ def subunit_updates(rng, T):
         # thread switches between any two bytecodes of the notification path and of the end of initialize()
         spec["hot"] = "_call_registered_update_callbacks|_protocol_message_received|initialize"
         spec["hot_budget"] = rng.choice([6, 12, 30])
+    return spec
+
+
+def subunit_late(rng, T):
+    """C03 flavour: one subunit object is initialised; then, while a burst of lines is being delivered, further objects are constructed on the
+    same connection by the caller; afterwards the receiver reports values for them"""
+    spec = subunit_init(rng, T)
+    while len(spec["inits"]) != 1 or spec["device"].get("version", 1) is None or spec["device"].get("silent_after") is not None or "slow_cmd" in spec["device"] \
+            or any(k.startswith("write_fault") for k in spec):
+        spec = subunit_init(rng, T)
+    c0 = spec["inits"][0]
+    dev = spec["device"]
+    dev["latency"] = 0.02
+    dev.pop("chunk", None)
+    nq = len(c0["expect_queries"]) + 1
+    t_done = spec.get("pre_delay", 0) + 0.4 + 0.1 * nq
+    at = round(t_done + 1.0, 3)
+    others = rng.sample([x for x in T["classes"] if x["py"] != c0["class"]], rng.randint(1, 2))
+    unsol = [u for u in dev.get("unsolicited", []) if u[0] < t_done]
+    nl = rng.randint(6, 14)
+    for k_ in range(nl):
+        unsol.append([round(at - 0.00004 + k_ * 0.00002, 6), f"@MAIN:ZONENAME=burst{k_}"])     # one of them arrives at the very instant of the construction
+    late = []
+    t = at + 1.0
+    for c2 in others:
+        fs = [f for f in c2["fns"] if f["get"] and f["name"] not in ("VERSION", "MODELNAME")]
+        late.append({"class": c2["py"], "expect_id": c2["id"], "readable": [f["name"] for f in c2["fns"] if f["get"]]})
+        for _ in range(rng.randint(1, 3)):
+            f = rng.choice(fs)
+            unsol.append([round(t, 3), f"@{c2['id']}:{f['name']}={_value_for(rng, T, f)}"])
+            t += 0.1
+    dev["unsolicited"] = sorted(unsol, key=lambda x: x[0])
+    spec["late"] = {"at": at, "inits": late, "settle": round(t - at + 1.0, 3)}
+    spec["hot"] = "register_message_callback|_call_registered_message_callbacks"
+    spec["hot_budget"] = rng.choice([12, 30, 60])
+    # a preempted thread may be held back for some microseconds, so that further lines of the burst arrive meanwhile
+    spec["stall"] = {"prob": 0.5, "us": [10, 20, 40, 80]}
     return spec
 
 
